@@ -353,7 +353,7 @@ Definition split_block_ok (F : list N) (f g : func) (b : N) : bool :=
   end.
 
 Definition split_check (f g : func) (F : list N) : bool :=
-  Nat.leb (List.length f) (List.length g) && fresh_ok F f &&
+  Nat.leb 1 (List.length f) && Nat.leb (List.length f) (List.length g) && fresh_ok F f &&
   forallb (fun i => split_block_ok F f g (N.of_nat i)) (seq 0 (List.length f)).
 
 (* ------------------------------------------------------------------ the validator *)
